@@ -33,6 +33,10 @@ def install(w):
         if isinstance(v, VList):
             return VInt(it.st.lists[v.oid].len)
         if isinstance(v, VDict):
+            if it.st.ghost.get(("absdict", v.oid)):
+                n = it.fresh_int("dictlen")
+                it.assume(n.t >= 0)
+                return n
             return VInt(len(it.st.dicts[v.oid]))
         if isinstance(v, VConst) and hasattr(v.obj, "__len__"):
             return VInt(len(v.obj))
@@ -529,9 +533,15 @@ def install(w):
             use("dict.get on a module-level table: lookup by == on the keys of the real table")
             return it.const_dict_lookup(dv, key, node, default=default, raising=False)
         if isinstance(dv, VDict):
+            if it.st.ghost.get(("absdict", dv.oid)):
+                if it.choose(2, "abstract dict get") == 1:
+                    return default
+                return it.fresh_dyn("dictval")
             d = it.st.dicts[dv.oid]
             if isinstance(key, VStr) and key.lit is not None:
                 return d.get(key.lit, default)
+            if not d:
+                return default
         raise Unsupported("dict.get")
     B["dict.get"] = d_get
     B["mappingproxy.get"] = d_get
